@@ -65,8 +65,8 @@ FAULT_UPLOAD = Suite(
          "program order and the plan maps index -> ok | ENOENT | EACCES | ENOSPC | EIO | short write (first half of the "
          "bytes) | for Post: transport error / 5xx / 4xx. Plans: none; every single call index of the fault-free run x "
          "kind (all five error kinds on the first two directory states, EIO and short write on the others; 4xx / 5xx at "
-         "the Post indices); in thorough all five kinds everywhere, all PAIRS of call indices x {EIO, short} on three "
-         "states, and random plans with 3-6 faults. Observables compared with Model/UploaderFault run on the same "
+         "the Post indices); in thorough all five kinds everywhere, all PAIRS of call indices below 31 x {EIO, short} x {ENOSPC, short} on "
+         "the first three states, and on every other state six random plans with 2-3 faults. Observables compared with Model/UploaderFault run on the same "
          "directory, plan and observed week order: number of calls made, panic raised, final listing of local/ and "
          "upload/ with content classes and report sums, requests received by the server. Oracles on the "
          "implementation's observations (PROP classes): call-bound (more than 21 n + 6 calls), hang (step budget "
